@@ -283,7 +283,7 @@ func (b *BlockList) readLists(skipLocal bool) error {
 				return fmt.Errorf("error opening file: %w", err)
 			}
 
-			if err = b.parseHostFile(file); err != nil {
+			if err = b.parseHostFile(file, f.Name() == "local"); err != nil {
 				_ = file.Close()
 				return fmt.Errorf("error parsing hostfile: %w", err)
 			}
@@ -307,7 +307,13 @@ func (b *BlockList) readLists(skipLocal bool) error {
 	return nil
 }
 
-func (b *BlockList) parseHostFile(file *os.File) error {
+// parseHostFile adds the names of one list file. A name that what has
+// been loaded so far already blocks is skipped, which keeps the large
+// downloaded lists from carrying their own subdomains twice; exact is
+// set for the API-owned list "local", whose entries are the operator's
+// own: each one is kept, so that removing a parent entry later leaves
+// the child entry in place exactly as it does in the running process.
+func (b *BlockList) parseHostFile(file *os.File, exact bool) error {
 	scanner := bufio.NewScanner(file)
 	for scanner.Scan() {
 		line := scanner.Text()
@@ -343,7 +349,7 @@ func (b *BlockList) parseHostFile(file *os.File) error {
 				break
 			}
 			canonical := dns.CanonicalName(n)
-			if !b.Exists(canonical) {
+			if exact || !b.Exists(canonical) {
 				b.set(canonical)
 			}
 		}
